@@ -16,7 +16,7 @@ from vmon.libutil import monitored, xtce_element
 
 LEVEL = "exploration"
 SHARDS = {"quick": 16, "thorough": 16}
-MUST = ["enum.every_raw", "enum.unlisted_negative_raw", "spline.order0", "spline.order1", "poly", "context.first-of-several", "context.none-match-default", "context.none-match-nodefault",
+MUST = ["bool.string_or_binary_encoded", "enum.every_raw", "enum.unlisted_negative_raw", "spline.order0", "spline.order1", "poly", "context.first-of-several", "context.none-match-default", "context.none-match-nodefault",
         "enum.listed", "enum.unlisted", "bool", "time.scaled", "query.at-last-knot", "query.at-first-knot", "query.outside-noextrap",
         "route.ctor", "route.xml", "calibrate.contract_evaluations", "enum.wide"]
 RULE = ("case = (parameter type IR, earlier parameter values, field bits, bit offset, construction route); parse_value's "
@@ -94,6 +94,8 @@ class TypeFactory:
 
 def raw_to_bits(enc, raw):
     """encode a raw value into the field bits of a numeric encoding (big-endian only here)"""
+    if isinstance(enc, (ir.StrEnc, ir.BinEnc)):
+        return bits.bitstr(raw)          # raw = the buffer bytes themselves
     if isinstance(enc, ir.IntEnc):
         n = enc.bits
         v = raw if raw >= 0 else raw + (1 << n)
@@ -384,6 +386,21 @@ def run(ctx):
                     ctx.sig("enumerated", "every-raw", sname, encoding, raw in vals, "neg" if raw < 0 else "zero" if raw == 0 else "pos")
                     run_case(ctx, F, t, {}, raw, (item + raw) % 8, route, rng, {"_lib": lib, "kind": "enumerated", "q": f"every-raw/{sname}"})
     ctx.exhaustive_space("7 enumeration shapes x widths {1,2,3,4,8} x {unsigned, signed, twosComplement} x every raw value", 1)
+
+    # ---- 4c. booleans over string and binary encodings: the truthiness of the RAW value (the whole buffer), not of the decoded text:
+    #          an empty text in a non-empty buffer (terminator first, leading size 0) is true; an all-NUL buffer is a non-empty buffer
+    sb_cases = [(ir.StrEnc("UTF-8", 24, "00"), b"\x00AB"), (ir.StrEnc("UTF-8", 24, "00"), b"AB\x00"), (ir.StrEnc("UTF-16BE", 32, "0000"), b"\x00\x00\x00A"),
+                (ir.StrEnc("US-ASCII", 24, None, 8), b"\x00AB"), (ir.StrEnc("US-ASCII", 24, None, 8), b"\x08A\x00"), (ir.StrEnc("UTF-8", 16), b"\x00\x00"),
+                (ir.StrEnc("UTF-8", 16), b"ok"), (ir.BinEnc(16), b"\x00\x00"), (ir.BinEnc(16), b"\x00\x01"), (ir.BinEnc(8), b"\x00")]
+    for si, (enc, buf) in enumerate(sb_cases):
+        for route in routes:
+            item += 1
+            if not ctx.mine(item):
+                continue
+            t = ir.PType("T", "boolean", enc)
+            ctx.count("bool.string_or_binary_encoded")
+            ctx.sig("boolean", type(enc).__name__, si, route)
+            run_case(ctx, F, t, {}, buf, rng.randrange(8), route, rng, {"kind": "boolean", "q": "string-or-binary-encoded"})
 
     # ---- 5. enum / bool must not depend on calibrators that cannot be evaluated for the raw value ---------------------
     bad_cals = [ir.Spline(((2.0, 1.0), (5.0, 2.0)), 0, False), ir.Spline(((2.0, 1.0), (5.0, 2.0)), 1, False),
